@@ -68,6 +68,7 @@ func (err Error) Error() string {
 
 // create a new Error from the given parameters
 func New(code Code, level Level, Range token.Range, msg, file string) Error {
+	verifRecordSite(code, Range, msg)
 	return Error{
 		Code:  code,
 		Range: Range,
